@@ -21,7 +21,7 @@
 """SECoP proxy modules"""
 
 from frappy.client import SecopClient, decode_msg, encode_msg_frame
-from frappy.datatypes import StringType
+from frappy.datatypes import StructOf, TupleOf, StringType
 from frappy.errors import BadValueError, CommunicationFailedError, ConfigError
 from frappy.lib import get_class
 from frappy.modules import Drivable, Module, Readable, Writable
@@ -220,10 +220,19 @@ def proxy_class(remote_class, name=None):
         elif isinstance(aobj, Command):
             cobj = aobj.copy()
 
-            def cfunc(self, arg=None, cname=aname):
+            def cfunc(self, *args, cname=aname, argtype=cobj.argument, **kwds):
+                # Command.do hands over tuple members as positional and struct members as keyword arguments
+                if isinstance(argtype, TupleOf):
+                    arg = args
+                elif isinstance(argtype, StructOf):
+                    arg = kwds
+                else:
+                    arg = args[0] if args else None
                 return self._secnode.execCommand(self.module, cname, arg)[0]
 
-            attrs[aname] = cobj(cfunc)
+            # not cobj(cfunc): the generic function does not have the signature of the remote one
+            cobj.func = cfunc
+            attrs[aname] = cobj
 
         else:
             raise ConfigError(f'do not now about {aobj!r} in {remote_class}.accessibles')
